@@ -208,6 +208,12 @@ def fill_containers(det, combo, salt=0.0):
         )
     if combo.get("phase", "none") == "set":
         det.phase.array = v * 0.5 + 7.0
+    if combo.get("_alias"):
+        shared = v * 2.0 + 0.25
+        det.pixel.array = shared
+        det.signal.array = shared
+        if combo.get("phase", "none") == "set":
+            det.phase.array = shared
     if combo.get("scene", "none") == "one":
         src = xr.Dataset(
             {"x": xr.DataArray([1.0, 2.0], dims="ref"), "y": xr.DataArray([3.0, 4.0], dims="ref"),
@@ -443,8 +449,16 @@ MODEL_FILES = {
             "data": "nested", "phase": "set"},
     "Fgrp": {"photon": "2d", "pixel": "set", "signal": "set", "image": "u64", "charge": "array", "scene": "none",
              "data": "groups", "phase": "set"},
+    # a stored "dark" state: only the pixel container initialised; the RUNNING detector holds everything (2-D / 3-D photon)
+    "Fdark": {"photon": "none", "pixel": "set", "signal": "none", "image": "none", "charge": "zero", "scene": "none",
+              "data": "empty", "phase": "none", "_fill": "F2d"},
+    "Fdark3": {"photon": "none", "pixel": "none", "signal": "set", "image": "none", "charge": "zero", "scene": "none",
+               "data": "empty", "phase": "none", "_fill": "F3d"},
+    # pixel and signal (and phase) of the stored detector were assigned ONE array object
+    "Falias": {"photon": "2d", "pixel": "set", "signal": "set", "image": "u16", "charge": "array", "scene": "none",
+               "data": "one", "phase": "set", "_alias": True},
 }
-POSITIONS = ("first", "middle", "last")
+POSITIONS = ("first", "middle", "last", "inplace")
 
 
 def _plan(tier):
@@ -574,6 +588,14 @@ def m_fill(detector, combo=None, salt=0.0):
         detector.image.array = (detector.image.array % 60000).astype(other)
 
 
+def m_inplace(detector, bucket="signal"):
+    """model: works IN PLACE on the array the container hands out (as the noise models do: `x = c.array; x += ...`)"""
+    c = getattr(detector, bucket)
+    if c._array is not None:
+        arr = c.array
+        arr += 1000.0
+
+
 def m_observe(detector, tag=""):
     """model: record a snapshot of every container of the running detector"""
     OBSERVED.append({"tag": tag, "step": int(detector.pipeline_count), "snap": snap_containers(detector)})
@@ -598,7 +620,10 @@ def run_model(case):
     import pyxel
 
     kind, fname, pos, steps = case["det"], case["file"], case["pos"], case["steps"]
-    combo = {a: v for a, v in MODEL_FILES[fname].items() if a in axes_for(kind)}
+    spec = MODEL_FILES[fname]
+    combo = {a: v for a, v in spec.items() if a in axes_for(kind) or a == "_alias"}
+    fill_combo = combo if "_fill" not in spec else {a: v for a, v in MODEL_FILES[spec["_fill"]].items() if a in axes_for(kind)}
+    fill_combo = {a: v for a, v in fill_combo.items() if a != "_alias"}
     viol = []
     tag = f"{kind} file={fname} load_detector at position {pos} of the pipeline, {steps} readout(s)"
 
@@ -616,7 +641,8 @@ def run_model(case):
         assert_readable(want, "a container of the stored detector")
 
         running = build_detector(kind, "all")
-        fill = ("props.c18_save_load.m_fill", "fill", {"combo": combo, "salt": 50.0})
+        fill = ("props.c18_save_load.m_fill", "fill", {"combo": fill_combo, "salt": 50.0})
+        inpl = ("props.c18_save_load.m_inplace", "inplace", {"bucket": "signal"})
         load = ("pyxel.models.load_detector", "load_detector", {"filename": path})
         obs = ("props.c18_save_load.m_observe", "observe", {"tag": "after"})
         obs2 = ("props.c18_save_load.m_observe", "observe2", {"tag": "after2"})
@@ -624,6 +650,9 @@ def run_model(case):
             groups = {"photon_collection": [load], "charge_generation": [obs], "charge_collection": [obs2]}
         elif pos == "middle":
             groups = {"photon_collection": [fill], "charge_generation": [load], "charge_collection": [obs]}
+        elif pos == "inplace":
+            groups = {"photon_collection": [fill], "charge_generation": [load], "charge_collection": [inpl],
+                      "charge_measurement": [obs]}
         else:
             groups = {"photon_collection": [fill], "charge_generation": [obs], "charge_collection": [load]}
         del OBSERVED[:]
@@ -634,7 +663,13 @@ def run_model(case):
             bad("run-failed", "run", ["-"], f"the run raised {type(e).__name__}: {str(e)[:300]}")
             return {"viol": viol, "sig": cfgx.sig([kind, fname, pos, steps]), "nontrivial": False}
         # (1) the probe(s) placed after the model see the file's containers
-        if pos in ("first", "middle"):
+        if pos == "inplace":
+            # a later model changed the signal in place: every OTHER container must still hold the file's content
+            want = dict(want)
+            want.pop("signal", None)
+            for o in OBSERVED:
+                o["snap"].pop("signal", None)
+        if pos in ("first", "middle", "inplace"):
             after = [o for o in OBSERVED if o["tag"].startswith("after")]
             exp_n = steps * (2 if pos == "first" else 1)
             if len(after) != exp_n:
@@ -652,6 +687,8 @@ def run_model(case):
             wrong = []
             example = None
             for name in ("photon", "pixel", "signal", "image", "charge"):
+                if name not in want:
+                    continue
                 got = _bucket_from_result(result, name, step)
                 w = want[name] if name != "charge" else want["charge"]["array"]
                 exp = None if w is None else {"shape": w["shape"], "values": w["values"]}
